@@ -93,7 +93,17 @@ def d10():
         set_eps()
 
 
-ALL = dict(D1=d1, D2=d2, D3=d3, D4=d4, D5=d5, D6=d6, D7=d7, D8=d8, D9=d9, D10=d10)
+def d11():
+    sq = ConvexPolygon((Point(0, 0, 0), Point(1, 0, 0), Point(1, 1, 0), Point(0, 1, 0)))
+    far = Line(Point(5, 5, 5), Vector(0, 0, 1))          # misses the square
+    try:
+        r = far in sq
+    except (NotImplementedError, TypeError, ValueError):
+        return
+    assert not (r and intersection(far, sq) is None), "Line in ConvexPolygon is %r although intersection(line, polygon) is None" % (r,)
+
+
+ALL = dict(D11=d11, D1=d1, D2=d2, D3=d3, D4=d4, D5=d5, D6=d6, D7=d7, D8=d8, D9=d9, D10=d10)
 if __name__ == "__main__":
     which = sys.argv[1:] or list(ALL)
     bad = 0
